@@ -359,6 +359,45 @@ def job_sync_inductive(seed):
     return obs
 
 
+def job_report(seed):
+    """ReportJobDone: the result is recorded under the thread mutex and NOTHING of the assignment state changes (started-jobs counter, cache, scan position): the --maxjobs quota counts
+    jobs ever started by this process, whatever their outcome"""
+    rvc.reset()
+    fns = fns_all()
+    if 'ReportJobDone' not in fns:
+        raise core.Undecided('front end: ProgObserver::ReportJobDone not found')
+    fn = fns['ReportJobDone'][0]
+    F = 'ProgObserver::ReportJobDone'
+    obs = []
+    for outcome in ('COMPLETE', 'FAILED'):
+        log = []
+        started, reported = sp.Symbol('started', integer=True, nonnegative=True), sp.Symbol('reported', integer=True, nonnegative=True)
+        job = {'status': 'ASSIGNED', 'host': ME, 'touched': []}
+        res = {'status': outcome}
+        cb = {'enum': lambda nn: LEVELS.get(nn, nn), 'getLogger': lambda t: 'LOGGER', 'getReportLevel': lambda l: -1, 'isMaverick': lambda t: True, 'Lock': lambda m_: log.append('lock'), 'Unlock': lambda m_: log.append('unlock'),
+              'GenerateHost': lambda o=None: ME, 'GenerateTime': lambda o=None: 'T', 'ostream_write': lambda *a: None,
+              'UpdateFromResult': lambda j, r_: (j.__setitem__('status', r_['status']), j['touched'].append('result'), log.append('update'))[1], 'setTime': lambda j, t: j['touched'].append('time'), 'setHost': lambda j, h: (j.__setitem__('host', h), j['touched'].append('host'))[1],
+              'getStatus': lambda r_: r_['status'], 'getStatusStr': lambda r_: r_['status'], 'isFailed': lambda r_: r_['status'] == 'FAILED', 'isComplete': lambda r_: r_['status'] == 'COMPLETE'}
+        frame = {'jobs_': 'JOBS', 'metajit_': 'SCAN-POSITION', 'jobsToProc_': 'CACHE', 'nextjit_': 'NEXT', 'maxJobs_': SInt(sp.Symbol('maxJobs', integer=True)), 'startJobsCount_': SInt(started), 'cacheSize_': 3, 'moreJobsAvailable_': True,
+                 'restartMode_': False}
+        this = dict(frame, lockThread_='MUTEX', jobsReported_=SInt(reported))
+        ex = Exec({'job': job, 'res': res, 'thread': 'THREAD'}, cb, fns, this)
+        try:
+            ex.stmt(rvc.body_of(fn))
+        except Ret:
+            pass
+        changed = [k for k, v in frame.items() if (sp.expand(SInt.ex(this[k]) - SInt.ex(v)) != 0 if isinstance(v, SInt) else this[k] is not v and this[k] != v)]
+        ok = not changed
+        o = Ob('C10.report/%s/frame' % outcome, F, 'reporting a %s job leaves the started-jobs counter, the job limit, the cache and the scan position unchanged' % outcome, 'RVC', 'symbolic execution', core.PROVED if ok else core.REFUTED, 0, 'changed: %s' % changed,
+               witness=None if ok else {'outcome': outcome, 'changed': str(changed), 'startJobsCount_': str(this['startJobsCount_'])})
+        o['functions'] = [{'name': F, 'file': 'xtp/src/libxtp/progressobserver.cc', 'ast_nodes': rvc.node_count(fn)}]; obs.append(o)
+        ok2 = log[:1] == ['lock'] and log[-1:] == ['unlock'] and log.count('lock') == 1 and log.count('unlock') == 1 and 'update' in log and job['status'] == outcome and sp.expand(SInt.ex(this['jobsReported_']) - reported - 1) == 0
+        o = Ob('C10.report/%s/record' % outcome, F, 'the result is copied into the job, time and host are stamped and the reported counter grows by one, all under the thread mutex (taken and released once)', 'RVC', 'symbolic execution', core.PROVED if ok2 else core.REFUTED, 0, str(log),
+               witness=None if ok2 else {'log': str(log)})
+        o['functions'] = [{'name': F, 'file': 'xtp/src/libxtp/progressobserver.cc', 'ast_nodes': rvc.node_count(fn)}]; obs.append(o)
+    return obs
+
+
 def collect(obs):
     seen = set(f['name'] for f in META['functions'])
     for o in obs:
@@ -369,7 +408,7 @@ def collect(obs):
 
 
 def run(tier, seed, only=None):
-    jobs = [(job_sync, (n, seed)) for n in ((0, 1, 2) if tier == 'quick' else (0, 1, 2, 3))] + [(job_request, (seed,)), (job_update, (seed,)), (job_sync_inductive, (seed,))]
+    jobs = [(job_sync, (n, seed)) for n in ((0, 1, 2) if tier == 'quick' else (0, 1, 2, 3))] + [(job_request, (seed,)), (job_update, (seed,)), (job_sync_inductive, (seed,)), (job_report, (seed,))]
     if only:
         jobs = [j for j in jobs if re.search(only, j[0].__name__ + str(j[1]))]
     obs = core.pmap(jobs)
